@@ -145,7 +145,7 @@ impl AdjacencyMatrix {
         self.wf(),
     ensures
         r == (forall|a: int| !self.has(a, a)),
-        r,
+        /*props=C12*/ r,
     @closure 1 |u: usize| -> (b: bool)
     ensures
         b == !self.has(u as int, u as int),
